@@ -221,6 +221,20 @@ func (s *Store) delete(ctx context.Context, target ocispec.Descriptor) ([]ocispe
 		}
 	}
 	danglings := s.graph.Remove(target)
+	if !s.AutoGC {
+		// a manifest that was only reachable through the deleted node stays
+		// stored: GC may have dropped its own entry from the index because it
+		// was reachable, so list it by digest again, or a reopened store
+		// would no longer know it
+		for _, d := range danglings {
+			if descriptor.IsManifest(d) && len(s.tagResolver.TagSet(d)) == 0 {
+				if err := s.tagResolver.Tag(ctx, d, d.Digest.String()); err != nil {
+					return nil, err
+				}
+				untagged = true // the index has to be saved
+			}
+		}
+	}
 	if untagged && s.AutoSaveIndex {
 		err := s.saveIndex()
 		if err != nil {
